@@ -161,6 +161,8 @@ structure Case where
   trips : List Trip := []
   copyShares : Bool := false
   vers : List VerObs := []
+  /-- version, local hash, which text, observed outcome class, "the data segment decodes by itself" -/
+  verOut : List (Nat × Nat × String × String × Bool) := []
 
 def splitBar (ts : List String) : List (List String) :=
   ts.foldr (fun t acc => if t == "|" then [] :: acc else match acc with | [] => [[t]] | a :: r => (t :: a) :: r) [[]]
@@ -288,8 +290,15 @@ def heapCorr (c : Case) : List String :=
         else if mb == ib then [] else [s!"{c.id} CORR diff heap object {i} model=[{showHex mb}] impl=[{showHex ib}]"]
     bad ++ rd
 
+/-- `Message.from_json` against `msgFromJson`: refused / decoded / failed, per probe -/
+def verCorr (c : Case) : List String :=
+  c.verOut.flatMap fun (v, h, what, oc, dok) =>
+    let m := match msgFromJson v h dok with | .refused => "R" | .decoded => "A" | .failed => "F"
+    if m == oc then [] else
+      [s!"{c.id} CORR diff msgFromJson version={v} hash={h} text={what} dataOk={dok} model=[{m}] impl=[{oc}]"]
+
 def finish (c : Case) : List String :=
-  let diffs := wholeCorr c ++ jsonCorr c ++ heapCorr c ++ c.leaves.reverse.flatMap (leafCorr c)
+  let diffs := wholeCorr c ++ jsonCorr c ++ heapCorr c ++ verCorr c ++ c.leaves.reverse.flatMap (leafCorr c)
   let corr := if diffs.isEmpty then [s!"{c.id} CORR ok"] else diffs.take 3
   let o : Pyrtma.Serial.Obs := { orig := c.b0, trips := c.trips, copyShares := c.copyShares, vers := c.vers }
   let prop := match firstFalse (Pyrtma.Serial.clauses o) with
@@ -337,6 +346,12 @@ def step (st : Case × List String) (line : String) : Case × List String :=
                                        else some (if h == c.b0hex then c.b0 else hexBytes h) }] }, out)
   | ["COPY", b] => ({ c with copyShares := b == "1" }, out)
   | ["VER", v, h, r] => ({ c with vers := c.vers ++ [{ version := natOf v, localHash := natOf h, refused := r == "1" }] }, out)
+  -- extended form: which text, whether its "data" member was altered, the outcome class (R refused / A decoded /
+  -- F another exception) and whether the data segment by itself decodes (the model's `msgFromJson` is compared)
+  | ["VER", v, h, r, what, alt, oc, dok] =>
+    ({ c with vers := c.vers ++ [{ version := natOf v, localHash := natOf h, refused := r == "1", what := what,
+                                   altered := alt == "1" }],
+              verOut := c.verOut ++ [(natOf v, natOf h, what, oc, dok == "1")] }, out)
   | ["END"] => ({}, out ++ finish c)
   | _ => (c, out)
 
